@@ -211,7 +211,7 @@ func (c *Csv[T]) WriteToFile(fileName string, rows <-chan *T) error {
 		return err
 	}
 
-	err = c.writeToWriter(file, true, rows)
+	err = c.writeToWriter(file, c.hasHeader, rows)
 	if err != nil {
 		return err
 	}
